@@ -336,6 +336,27 @@ PROPS["C19"] = dict(
                 "a reference EventSource parser over all code points and short strings.",
 )
 
+PROPS["C18"] = dict(
+    modules=["common", "c18"],
+    contracts=["URL._build_url"],
+    refute={"quick": [2], "thorough": [1, 2, 3]},
+    native="c18",
+    level="other",
+    trusted=["A-py-1", "A-solver", "A-pyvc"],
+    level_text="Mixed. PROVED (z3/cvc5 strings, all 50 paths): URL._build_url returns scheme://<Host header><path> when a Host "
+               "header is given, else <path> without a server, else scheme://host[:port]<path> with the port elided iff it is "
+               "the scheme's default or None, and appends '?'+query iff the query is non-empty; KeyError only for an unknown "
+               "scheme without Host header. BOUNDED (labelled): that the environ and the scope construction give the same "
+               "URL with exactly the request's components, component-wise replace on named/IPv4/IPv6 hosts with user, "
+               "password and port (observed through urlsplit - stdlib), the query helpers and the password masking of repr "
+               "are run over an enumerated grid.",
+    level_note="Trusted: bytes.decode() as utf8_decode/utf8_ok (uninterpreted); the observable components come from "
+               "urllib.parse.urlsplit (A-url-1), so the replace clauses are statements about stdlib behaviour and are only "
+               "checked bounded; the server's environ<->scope mapping (A-wsgi-2).",
+    technique="deductive verification: exact string contract of the URL builder over all branch combinations, SMT strings; bounded grid for construction parity and component-wise replace",
+    explanation="proved: _build_url string construction; bounded: environ/scope parity, replace, query helpers, repr masking.",
+)
+
 NOT_APPLICABLE = {
     "C06": "quantifies over schedules/interleavings (relay thread vs consumer vs closer, asyncio tasks vs ping timer) and is a "
            "bounded-liveness claim; contracts over a sequential, await-erased semantics cannot express an interleaving and "
